@@ -34,7 +34,23 @@ void fresh(T& x) {
 }
 
 // Runs every schedule with <= bound preemptions of the given calls (one per thread); judges each call in each execution.
-void explore_calls(vf::Run& r, vp::Arena& arena, Cache& cache, const std::vector<Call>& calls, int bound, const char* keysuffix, int slice = 0, int nslices = 1) {
+std::string pack(const std::vector<Slot>& slots) {
+  std::string m;
+  auto put = [&](const std::string& x) { uint32_t n = static_cast<uint32_t>(x.size()); m.append(reinterpret_cast<const char*>(&n), 4); m += x; };
+  for (auto& s : slots) { put(s.exc); put(s.obs.state); put(s.obs.bin); put(s.obs.hex); }
+  return m;
+}
+bool unpack(const std::string& m, std::vector<Slot>& slots) {
+  size_t off = 0;
+  auto get = [&](std::string& x) { if (off + 4 > m.size()) return false; uint32_t n; memcpy(&n, m.data() + off, 4); off += 4; if (off + n > m.size()) return false; x = m.substr(off, n); off += n; return true; };
+  for (auto& s : slots)
+    if (!get(s.exc) || !get(s.obs.state) || !get(s.obs.bin) || !get(s.obs.hex)) return false;
+  return true;
+}
+
+// cold = true: every schedule runs in a freshly forked child of this (never warmed-up) process, so each execution contains
+// the FIRST calls of the functions in its process.
+void explore_calls(vf::Run& r, vp::Arena& arena, Cache& cache, const std::vector<Call>& calls, int bound, const char* keysuffix, int slice = 0, int nslices = 1, bool cold = false) {
   const int n = static_cast<int>(calls.size());
   std::vector<Slot> slots(n);
   std::vector<std::string> refs(n);
@@ -57,12 +73,25 @@ void explore_calls(vf::Run& r, vp::Arena& arena, Cache& cache, const std::vector
   }
   vp::Stats st;
   std::map<std::string, uint64_t> outcomes;
+  bool child_died = false;
   auto exec = [&](const std::vector<vp::Seg>& segs) {
     for (auto& s : slots) fresh(s);
-    return arena.run(jobs, segs);
+    if (!cold) return arena.run(jobs, segs);
+    if (child_died) return vp::Result();  // ends the enumeration of this configuration (reported below)
+    vp::Forked f = vp::run_forked([&] { vp::Result res = arena.run(jobs, segs); return std::make_pair(res, pack(slots)); });
+    if (!f.ok || !unpack(f.payload, slots)) {
+      child_died = true;
+      r.fail(std::string(fn_name[calls[0].fn]) + ":concurrent-first-calls-crash" + keysuffix, [&] {
+        std::string w = "first calls in a fresh process";
+        for (int u = 0; u < n; u++) w += vf::fmt(" T%d=%s", u, show(calls[u]).c_str());
+        return w + " under schedule " + vp::show(segs) + vf::fmt(": the process died (wait status 0x%x)", f.status);
+      });
+      return vp::Result();
+    }
+    return f.res;
   };
   auto where = [&](const std::vector<vp::Seg>& segs, int t) {
-    std::string w = "concurrent calls";
+    std::string w = cold ? "concurrent FIRST calls in a fresh process" : "concurrent calls";
     for (int u = 0; u < n; u++) w += vf::fmt(" T%d=%s", u, show(calls[u]).c_str());
     return w + " under schedule " + vp::show(segs) + vf::fmt(" (segments are counts of basic-block entries): result of T%d", t);
   };
@@ -174,6 +203,32 @@ VF_SECTION(concurrent_cross, 16, 16, 300) {
       }
     }
   r.bound = "2 concurrent calls of different functions (all 30 ordered pairs x 2 overloads): every schedule with <= 1 (quick) / <= 2 (thorough) preemptions at basic-block granularity";
+}
+
+// Cold start: the first calls of a process overlap (lazily built tables, caches keyed by the first caller's arguments).
+// No warm-up, no call of the library in this process before the forks; one forked child per schedule.
+VF_SECTION(concurrent_cold, 12, 12, 600) {
+  Cache cache;
+  vp::Arena arena(2);
+  const Shape a{3, P_COUNTER}, b{5, P_FF}, c{70, P_LCG};
+  for (int fn = 0; fn < NFN; fn++)
+    for (int g = 0; g < NFN; g++) {
+      // same function in both jobs (both overloads), and every function next to crc32 / SHA256 (the two with tables)
+      bool same = fn == g;
+      if (!same && !(g == F_CRC32 || g == F_SHA256)) continue;
+      if (!same && !r.thorough() && g == F_SHA256) continue;
+      for (int ov : {OV_PTR, OV_STR}) {
+        if (ov == OV_STR && (fn == F_CRC32 || g == F_CRC32)) continue;
+        if (!r.take()) continue;
+        std::vector<Call> calls = {{fn, ov, a}, {g, OV_PTR, same && r.thorough() ? c : b}};
+        r.note(std::string("cold concurrent ") + fn_name[fn] + " and " + fn_name[g]);
+        if (r.wants_desc()) r.desc("fresh process per schedule: " + show(calls[0]) + " || " + show(calls[1]) + ", every schedule with <= 1 preemption");
+        explore_calls(r, arena, cache, calls, 1, "", 0, 1, true);
+        r.nontriv();
+        r.ok("cold configuration explored");
+      }
+    }
+  r.bound = "first calls: 2 concurrent calls of the same function (both overloads) and of every function next to crc32 (thorough: also next to SHA256), each schedule in a freshly forked process that has never called the library: every schedule with <= 1 preemption at basic-block granularity";
 }
 
 // Three threads, one preemption each way (two for the digests in thorough).
